@@ -35,6 +35,7 @@ var c02Defined = []frame.MessageType{
 type c02Parties struct {
 	a, b, c, d         *vnet.Party
 	sAB, sBA, sBC, sDA *state.Session
+	sCB, sAD           *state.Session
 }
 
 func c02Setup(c *core.Case) *c02Parties {
@@ -48,11 +49,40 @@ func c02Setup(c *core.Case) *c02Parties {
 	p.sBC = p.b.SessionWith(p.c)
 	sAD := p.a.SessionWith(p.d)
 	p.sDA = p.d.SessionWith(p.a)
+	p.sCB, p.sAD = sCB, sAD
 	// a's session for d is a separate session object from a's session for b.
 	for _, pair := range [][2]*state.Session{{p.sAB, p.sBA}, {sCB, p.sBC}, {sAD, p.sDA}} {
 		if err := vnet.KeyExchange(pair[0], pair[1]); err != nil {
 			c.Fatalf("key exchange: %v", err)
 		}
+	}
+	// One setup in six: every pair is long-lived - its regular numbering has
+	// wrapped and its keys have rolled over once (each pair to its own next key).
+	if c.Chance("rolled-over", 1, 6) {
+		b := frame.NewFrameBuilder()
+		for _, pr := range []struct {
+			from, to *vnet.Party
+			s, r     *state.Session
+		}{{p.a, p.b, p.sAB, p.sBA}, {p.c, p.b, sCB, p.sBC}, {p.a, p.d, sAD, p.sDA}} {
+			h := state.EncryptionSessionTestHelper{EncryptionSession: pr.s.Encryption()}
+			h.ReglSetOut(0xFFFF_FFFF - 2)
+			for k := 0; k < 5; k++ {
+				f, err := b.NewFrameV1(pr.from.ID.Addr.IP, pr.to.ID.Addr.IP, frame.NetworkTraffic, nil, []byte("long-lived session traffic"), nil)
+				if err != nil {
+					c.Fatalf("frame: %v", err)
+				}
+				if err := f.Seal(pr.s); err != nil {
+					c.Fatalf("seal across the wrap: %v", err)
+				}
+				d, _ := f.FrameDataWithMargins(0, 0)
+				d = append([]byte(nil), d...)
+				f.ReturnToPool()
+				if _, perr, uerr := c02Unseal(b, 0, 0, d, pr.r); perr != nil || uerr != nil {
+					c.Fatalf("frame %d across the sequence wrap does not unseal: parse=%v unseal=%v", k, perr, uerr)
+				}
+			}
+		}
+		c.Class("sessions-rolled-over-once")
 	}
 	return p
 }
